@@ -19,7 +19,7 @@ import (
 	sdk "github.com/cosmos/cosmos-sdk/types"
 )
 
-func init() { props["C18"] = runC18 }
+func init() { props["C18"] = func(r *Rec) { runC18(r); recFor(r, "C18") } }
 
 var c18Voc = []string{"frozen", "ueth", "ukex"} // ascending string order = ids 0,1,2
 
